@@ -486,7 +486,10 @@ def safe_math(fn, pos, *args):
         raise CklRuntimeError(
             ValueString("ERROR"),
             "Math error in " + fn.__name__
-            + "(" + ", ".join(str(arg) for arg in args) + ")",
+            + "(" + ", ".join(
+                str(ValueInt(arg)) if isinstance(arg, int) else str(arg)
+                for arg in args
+            ) + ")",
             pos,
         )
 
